@@ -345,6 +345,9 @@ func (fx *fexec) builtin(x *ssa.Call, b *ssa.Builtin, args []Val, st *State) Val
 	switch b.Name() {
 	case "len":
 		a := args[0]
+		if a.View != nil {
+			return Val{Ty: rt, T: vc.fromInt(a.View.n, rt)}
+		}
 		switch u := vc.under(a.Ty).(type) {
 		case *types.Slice:
 			return Val{Ty: rt, T: vc.fromInt(sLen(a.T), rt)}
@@ -508,6 +511,9 @@ func (fx *fexec) copyOp(x *ssa.Call, args []Val, st *State) Val {
 	}
 	et := vc.under(dst.Ty).(*types.Slice).Elem()
 	comp, srt := vc.elemComp(et)
+	if dst.View != nil || src.View != nil {
+		return fx.copyViews(x, dst, src, st)
+	}
 	h := vc.heapGet(st, comp, srt)
 	n := vc.define("copyn", ite(le(sLen(dst.T), sLen(src.T)), sLen(dst.T), sLen(src.T)))
 	dArr := sel(h, sArr(dst.T))
@@ -520,6 +526,62 @@ func (fx *fexec) copyOp(x *ssa.Call, args []Val, st *State) Val {
 	vc.assert(Term{fmt.Sprintf("(forall ((%s Int)) %s)", k.S, body.S), SBool})
 	// copy with n == 0 on a nil dst changes nothing
 	vc.heapSet(st, comp, ite(eq(n, intLit(0)), h, store(h, sArr(dst.T), fa)))
+	if b, ok := vc.under(et).(*types.Basic); ok && b.Kind() == types.Uint8 {
+		// string(b) is a function of the byte sequence only: after copying a whole slice
+		// over a slice of the same length, both convert to the same string
+		after := vc.pureApp("string.ofbytes", []Val{dst}, types.Typ[types.String], func(c, s string) Term { return vc.heapGet(st, c, s) })
+		before := vc.pureApp("string.ofbytes", []Val{src}, types.Typ[types.String], func(c, s string) Term {
+			if c == comp {
+				return h
+			}
+			return vc.heapGet(st, c, s)
+		})
+		vc.assert(implies(eq(sLen(dst.T), sLen(src.T)), eq(after, before)))
+	}
+	return Val{Ty: rt, T: vc.fromInt(n, rt)}
+}
+
+// copyViews is copy where the destination or the source (or both) is a slice of an array
+// stored inside another object (a struct field of array type).
+func (fx *fexec) copyViews(x *ssa.Call, dst, src Val, st *State) Val {
+	vc := fx.vc
+	rt := vc.resolve(x.Type())
+	et := vc.under(dst.Ty).(*types.Slice).Elem()
+	comp, srt := vc.elemComp(et)
+	h := vc.heapGet(st, comp, srt)
+	lenOf := func(v Val) Term {
+		if v.View != nil {
+			return v.View.n
+		}
+		return sLen(v.T)
+	}
+	n := vc.define("copyn", ite(le(lenOf(dst), lenOf(src)), lenOf(dst), lenOf(src)))
+	// the source is read in the state before the copy (copy behaves like memmove)
+	var srcAt func(j Term) Term
+	if src.View != nil {
+		sa := vc.define("copysrc", vc.load(st, src.View.loc))
+		srcAt = func(j Term) Term { return sel(sa, add(src.View.lo, j)) }
+	} else {
+		sa := sel(h, sArr(src.T))
+		srcAt = func(j Term) Term { return sel(sa, add(sOff(src.T), j)) }
+	}
+	vc.ctr["qv"]++
+	k := Term{fmt.Sprintf("q_k!%d", vc.ctr["qv"]), SInt}
+	if dst.View != nil {
+		old := vc.define("copydst", vc.load(st, dst.View.loc))
+		fa := vc.fresh("copyarr", old.Sort)
+		in := and(le(dst.View.lo, k), lt(k, add(dst.View.lo, n)))
+		body := eq(sel(fa, k), ite(in, srcAt(sub(k, dst.View.lo)), sel(old, k)))
+		vc.assert(Term{fmt.Sprintf("(forall ((%s Int)) %s)", k.S, body.S), SBool})
+		vc.storeLoc(st, dst.View.loc, ite(le(n, intLit(0)), old, fa))
+	} else {
+		dArr := sel(h, sArr(dst.T))
+		fa := vc.fresh("copyarr", arrayElemSort(srt))
+		in := and(le(sOff(dst.T), k), lt(k, add(sOff(dst.T), n)))
+		body := eq(sel(fa, k), ite(in, srcAt(sub(k, sOff(dst.T))), sel(dArr, k)))
+		vc.assert(Term{fmt.Sprintf("(forall ((%s Int)) %s)", k.S, body.S), SBool})
+		vc.heapSet(st, comp, ite(eq(n, intLit(0)), h, store(h, sArr(dst.T), fa)))
+	}
 	return Val{Ty: rt, T: vc.fromInt(n, rt)}
 }
 
